@@ -30,6 +30,9 @@ EVENTS = [
     "alias_dup_name", "alias_dup_symbol", "alias_space_symbol", "alias_dup_symbol_only",
     "dim_derive_dup_name", "dim_define_dup_name", "dim_define_dup_symbol",
     "prefix_dup_name", "prefix_dup_symbol",
+    # the same faults on the structurally fixed objects, i.e. naming something that may already
+    # exist anonymously with a name or symbol that belongs to someone else
+    "name_prefix_dup_name", "name_prefix_dup_symbol", "name_dim_dup_name",
 ]
 QUICK_EVENTS = EVENTS
 
@@ -124,7 +127,7 @@ class C19Model(Model):
         # the anonymous operands is not an effect of the (possibly failing) call itself
         if e in ("name_unit", "derive_dup_name", "derive_dup_symbol", "derive_space_symbol"):
             arg_unit = Meter * Second**5
-        if e in ("name_dim", "dim_derive_dup_name"):
+        if e in ("name_dim", "dim_derive_dup_name", "name_dim_dup_name"):
             arg_dim = m.Length**7
         t_before = tables(w)
         before = digest(t_before)
@@ -186,6 +189,12 @@ class C19Model(Model):
                 m.Prefix(7, 3, name="kilo", symbol="vk")
             elif e == "prefix_dup_symbol":
                 m.Prefix(7, 4, name="verif p4", symbol="k")
+            elif e == "name_prefix_dup_name":
+                m.Prefix(7, 2, name="kilo", symbol="vk2")
+            elif e == "name_prefix_dup_symbol":
+                m.Prefix(7, 2, name="verif p5", symbol="k")
+            elif e == "name_dim_dup_name":
+                m.Dimension.derive(arg_dim, "time")
             else:
                 raise HarnessError(e)
             outcome = "returned"
@@ -353,7 +362,7 @@ def run(rep, tier):
     core = [e for e in EVENTS if e in (
         "anon_prefix", "anon_unit", "anon_dim", "name_prefix", "name_unit", "name_dim", "define_unit",
         "alias_unit", "define_space_symbol", "derive_dup_symbol", "alias_dup_symbol", "dim_derive_dup_name",
-        "prefix_dup_symbol", "derive_dup_name")]
+        "prefix_dup_symbol", "derive_dup_name", "name_prefix_dup_name", "name_prefix_dup_symbol")]
     ex2 = HistoryExplorer(w, C19Model(core), max_depth=depth + 2, time_cap=3000 if thorough else 200).run()
     rep.extend(ex2.violations)
     # ---- Part I: import orders
